@@ -15,8 +15,11 @@ import (
 	"sync"
 	"testing"
 
+	"github.com/Eyevinn/mp4ff/avc"
 	"github.com/Eyevinn/mp4ff/bits"
+	"github.com/Eyevinn/mp4ff/hevc"
 	"github.com/Eyevinn/mp4ff/mp4"
+	"github.com/Eyevinn/mp4ff/sei"
 	"pgregory.net/rapid"
 
 	"verif/internal/boxgen"
@@ -24,9 +27,9 @@ import (
 )
 
 type heldCase struct {
-	Kind  string             `json:"kind"` // "box" | "file"
-	Typ   string             `json:"typ,omitempty"`
-	Items []harness.HexBytes `json:"items"`
+	Kind  string             `json:"kind"` // "box" | "file" | "es"
+	Typ   string             `json:"typ,omitempty"` // box type; "es": codec ("avc" | "hevc")
+	Items []harness.HexBytes `json:"items"`         // "es": bundles (bundleBytes of parameter sets, SEI NAL units, SEI payloads, samples)
 	SR    []bool             `json:"sr"`            // per item: SliceReader decoder (else io.Reader)
 	Par   bool               `json:"par,omitempty"` // the items are decoded by goroutines (barrier before the use)
 	Rev   bool               `json:"rev,omitempty"` // the held objects are used in reverse order
@@ -37,6 +40,7 @@ func init() { harness.RegisterReplay("held", harness.Replayer(checkHeld)) }
 type heldObj struct {
 	box  mp4.Box
 	file *mp4.File
+	es   []interface{} // "es": values returned by the codec helpers (structs, messages, byte slices), not yet rendered
 	err  string
 }
 
@@ -48,6 +52,8 @@ func heldDecode(kind string, data []byte, sr bool) (o heldObj) {
 	}()
 	d := clone(data) // every decode owns its input: aliasing the input is not what this leg is about
 	switch kind {
+	case "avc", "hevc":
+		return heldObj{es: esCompute(kind, d)}
 	case "box":
 		var b mp4.Box
 		var err error
@@ -87,6 +93,9 @@ func heldUse(o heldObj) (res string) {
 	}()
 	var sb strings.Builder
 	var info, enc bytes.Buffer
+	if o.es != nil {
+		return esRender(o.es)
+	}
 	if o.box != nil {
 		if err := o.box.Info(&info, "all:1", "", "  "); err != nil {
 			sb.WriteString("info error: " + errClass(err.Error()) + "\n")
@@ -118,12 +127,135 @@ func heldUse(o heldObj) (res string) {
 	return sb.String()
 }
 
+// esCompute runs the codec helpers on a bundle and returns what they returned, unrendered: parsed parameter sets,
+// SEI messages and the slices their Payload() calls hand out, serialised typed messages, NAL unit lists.
+func esCompute(codec string, bundle []byte) []interface{} {
+	items, err := splitBundle(bundle)
+	if err != nil {
+		return []interface{}{"not a bundle"}
+	}
+	spss, ppss := itemsOf(items, 'S'), itemsOf(items, 'P')
+	seis, samples, msgs := itemsOf(items, 'E'), itemsOf(items, 'D'), itemsOf(items, 'A')
+	var out []interface{}
+	keepMsgs := func(ms []sei.SEIMessage, err error) {
+		out = append(out, fmt.Sprint(err))
+		for _, m := range ms {
+			out = append(out, m, m.Payload()) // the message and the slice Payload() handed out
+		}
+	}
+	if codec == "avc" {
+		spsMap := map[uint32]*avc.SPS{}
+		var first *avc.SPS
+		for _, n := range spss {
+			if sps, err := avc.ParseSPSNALUnit(n, true); err == nil {
+				spsMap[sps.ParameterID] = sps
+				if first == nil {
+					first = sps
+				}
+				out = append(out, sps)
+			}
+		}
+		for _, n := range ppss {
+			if pps, err := avc.ParsePPSNALUnit(n, spsMap); err == nil {
+				out = append(out, pps)
+			}
+		}
+		for _, n := range seis {
+			keepMsgs(avc.ParseSEINalu(n, first))
+		}
+		for _, s := range samples {
+			nalus, err := avc.GetNalusFromSample(s)
+			out = append(out, nalus, fmt.Sprint(err))
+			bs := avc.ConvertSampleToByteStream(clone(s))
+			out = append(out, bs, avc.ExtractNalusFromByteStream(bs))
+			if sp, pp := avc.GetParameterSets(s); len(sp)+len(pp) > 0 {
+				out = append(out, sp, pp)
+			}
+		}
+	} else {
+		spsMap := map[uint32]*hevc.SPS{}
+		var first *hevc.SPS
+		for _, n := range spss {
+			if sps, err := hevc.ParseSPSNALUnit(n); err == nil {
+				spsMap[uint32(sps.SpsID)] = sps
+				if first == nil {
+					first = sps
+				}
+				out = append(out, sps)
+			}
+		}
+		for _, n := range ppss {
+			if pps, err := hevc.ParsePPSNALUnit(n, spsMap); err == nil {
+				out = append(out, pps)
+			}
+		}
+		for _, n := range seis {
+			keepMsgs(hevc.ParseSEINalu(n, first))
+		}
+		for _, s := range samples {
+			nalus, err := avc.GetNalusFromSample(s)
+			out = append(out, nalus, fmt.Sprint(err))
+			if v, sp, pp := hevc.GetParameterSets(s); len(v)+len(sp)+len(pp) > 0 {
+				out = append(out, v, sp, pp)
+			}
+		}
+	}
+	// SEI payloads decoded one by one (type byte + payload), and typed messages serialised again
+	for _, a := range msgs {
+		if len(a) == 0 {
+			continue
+		}
+		sd := sei.NewSEIData(uint(a[0]), clone(a[1:]))
+		var m sei.SEIMessage
+		var err error
+		if codec == "avc" {
+			m, err = sei.DecodeSEIMessage(sd, sei.AVC)
+		} else {
+			m, err = sei.DecodeSEIMessage(sd, sei.HEVC)
+		}
+		out = append(out, fmt.Sprint(err))
+		if err == nil && m != nil {
+			out = append(out, m, m.Payload())
+		}
+	}
+	return out
+}
+
+func esRender(vals []interface{}) string {
+	var sb strings.Builder
+	for i, v := range vals {
+		switch x := v.(type) {
+		case string:
+			fmt.Fprintf(&sb, "%d %s\n", i, x)
+		case []byte:
+			fmt.Fprintf(&sb, "%d bytes %x\n", i, x)
+		case [][]byte:
+			fmt.Fprintf(&sb, "%d list %x\n", i, x)
+		case sei.SEIMessage:
+			fmt.Fprintf(&sb, "%d sei %d %d %s %x\n", i, x.Type(), x.Size(), x.String(), x.Payload())
+		default:
+			fmt.Fprintf(&sb, "%d %s\n", i, jsonOf(x))
+		}
+	}
+	return sb.String()
+}
+
 func checkHeld(c heldCase) *harness.Fail {
 	n := len(c.Items)
-	if n < 2 || n > 8 || len(c.SR) != n || (c.Kind != "box" && c.Kind != "file") {
+	if n < 2 || n > 8 || len(c.SR) != n || (c.Kind != "box" && c.Kind != "file" && c.Kind != "es") {
 		return harness.Failf("harness|c20|bad-case", "held case with %d items", n)
 	}
+	kind := c.Kind
+	if kind == "es" {
+		kind = c.Typ
+		if kind != "avc" && kind != "hevc" {
+			return harness.Failf("harness|c20|bad-case", "held es case with codec %q", c.Typ)
+		}
+	}
 	api := func(i int) string {
+		if c.Kind == "es" {
+			return c.Typ + " parameter set / SEI / NAL unit helpers"
+		}
 		name := map[string]string{"box": "DecodeBox", "file": "DecodeFile"}[c.Kind]
 		if c.SR[i] {
 			name += "SR"
@@ -133,7 +265,7 @@ func checkHeld(c heldCase) *harness.Fail {
 	// alone: decode and use, one item after the other
 	alone := make([]string, n)
 	for i := range c.Items {
-		alone[i] = heldUse(heldDecode(c.Kind, c.Items[i], c.SR[i]))
+		alone[i] = heldUse(heldDecode(kind, c.Items[i], c.SR[i]))
 	}
 	// held: all decoded first
 	objs := make([]heldObj, n)
@@ -148,7 +280,7 @@ func checkHeld(c heldCase) *harness.Fail {
 				go func(i int) {
 					defer wg.Done()
 					<-start
-					objs[i] = heldDecode(c.Kind, c.Items[i], c.SR[i])
+					objs[i] = heldDecode(kind, c.Items[i], c.SR[i])
 				}(i)
 			}
 			close(start)
@@ -161,7 +293,7 @@ func checkHeld(c heldCase) *harness.Fail {
 		}
 	} else {
 		for i := range c.Items {
-			objs[i] = heldDecode(c.Kind, c.Items[i], c.SR[i])
+			objs[i] = heldDecode(kind, c.Items[i], c.SR[i])
 		}
 	}
 	order := make([]int, n)
@@ -182,7 +314,11 @@ func checkHeld(c heldCase) *harness.Fail {
 			if lo < 0 {
 				lo = 0
 			}
-			return harness.Failf("C20|held:"+api(i)+"+Info+Encode|result of an object kept while others were decoded differs from the run alone",
+			key := "C20|held:" + api(i) + "+Info+Encode|result of an object kept while others were decoded differs from the run alone"
+			if c.Kind == "es" {
+				key = "C20|held:" + c.Typ + " codec helpers|values returned earlier changed while the same calls ran on other input"
+			}
+			return harness.Failf(key,
 				"%s item %d of %d (type %q, %d bytes): first difference at %d: held %q, alone %q", c.Kind, i, n, c.Typ, len(c.Items[i]), at, firstLine(got[lo:], 160), firstLine(alone[i][lo:], 160))
 		}
 	}
@@ -192,7 +328,20 @@ func checkHeld(c heldCase) *harness.Fail {
 func genHeld(t *rapid.T) heldCase {
 	var c heldCase
 	n := rapid.IntRange(2, 4).Draw(t, "nItems")
-	if rapid.IntRange(0, 4).Draw(t, "heldFiles") == 0 {
+	if k := rapid.IntRange(0, 5).Draw(t, "heldKind"); k == 5 {
+		// two bundles of parameter sets, SEI NAL units, SEI payloads and samples: the near-duplicate pair of the
+		// job-mix inputs (same structure, ids and sizes; other values and last bytes)
+		ins := genNalusInputs(t, true)
+		c.Kind, c.Typ = "es", ins[0].Codec
+		for _, in := range ins {
+			b, err := bundleBytes(in.Items)
+			if err != nil {
+				t.Fatalf("bundle: %v", err)
+			}
+			c.Items = append(c.Items, b)
+		}
+		n = len(c.Items)
+	} else if k == 0 {
 		c.Kind = "file"
 		kind := rapid.SampledFrom([]string{"prog", "init", "media", "frag"}).Draw(t, "synthKind")
 		c.Typ = kind
@@ -251,6 +400,9 @@ func TestHeld(t *testing.T) {
 			distinct = distinct || !bytes.Equal(c.Items[i], c.Items[0])
 		}
 		classes := []string{"held-" + c.Kind, fmt.Sprintf("held-items-%d", len(c.Items))}
+		if c.Kind == "es" {
+			classes = append(classes, "held-es-"+c.Typ)
+		}
 		if c.Kind == "box" {
 			classes = append(classes, "held-type-"+c.Typ)
 		}
